@@ -66,6 +66,21 @@ def comparators(P, R, rule='C19.ARITH.1'):
                             bad.append(sx(x))
             R.ob(rule, not bad, s, 'comparator %s returns %s' % (f.name, 'a three-way result that cannot overflow' if not bad else 'the difference %s, which has the wrong sign on overflow' % bad[0]),
                  key='return:%s' % ('sub' if bad else 'ok'))
+    # sibling agreement: every comparator that orders names orders them with the same library comparison (the same
+    # names - configuration keys, log facilities, modules - are looked up in several containers; one container folding
+    # case and another not makes the same name two elements here and one there)
+    used = {}
+    for f in fns.values():
+        for s in f.sites():
+            for ex in rules.event_exprs(s.ev):
+                for x in walk(ex):
+                    if x.get('k') == 'callref' and x.get('callee') in ('strcmp', 'strcasecmp', 'strncmp', 'strncasecmp', 'strcoll'):
+                        used.setdefault(x['callee'], []).append((f, s))
+    if used:
+        summary = '; '.join('%s: %s' % (k, ', '.join(sorted({f.name for f, _ in lst}))) for k, lst in sorted(used.items()))
+        for k, lst in sorted(used.items()):
+            for f, s in lst:
+                R.ob(rule, len(used) == 1, s, 'the name comparators agree on how names compare (%s)' % summary, key='name-compare:%s' % f.name)
     # the stock integer comparator orders its keys as the signed ints they are (ids may be negative)
     ci = P.fn('set_compare_int')
     if ci is not None:
@@ -203,6 +218,16 @@ def count_paths(P, R, rule='C19.MPT.1', disp=None):
     # clear: zeroed on every path that had a set
     z = [s for s in clr.stores() if s.ev['k'] == 'store' and is_field(s.ev['lhs'], 'count', 'set') and const_of(s.ev.get('rhs')) == 0]
     R.ob(rule, bool(z) and all(st[2] or True for st in at_exit) and clr.path_avoiding(z[0], lambda t: False) is not None, z[0] if z else clr, 'clear zeroes the count', key='clear:count', nontrivial=False)
+
+    def clr_event(st, s):
+        ev = s.ev
+        if ev['k'] == 'store' and is_field(ev['lhs'], 'root', 'set') and ev.get('op') == '=' and const_of(ev.get('rhs')) == 0:
+            return (True, st[1])
+        if ev['k'] == 'store' and is_field(ev['lhs'], 'count', 'set') and ev.get('op') == '=' and const_of(ev.get('rhs')) == 0:
+            return (st[0], True)
+        return st
+    _, cx, _, _ = clr.forward((False, False), clr_event, None)
+    R.ob(rule, bool(cx) and all(zz for rn, zz in cx if rn), z[0] if z else clr, 'whenever clear has emptied the tree (root = NULL) it has zeroed the count before it returns, with or without disposal', key='clear:count-all-paths')
     R.floor(rule, 5)
 
 
